@@ -50,6 +50,61 @@ def scan_module_state(rep):
                        f"{len(tables)} module-level mutable objects scanned")
 
 
+def scan_class_state(rep):
+    """state shared by all contexts of a process: no class of the package keeps a mutable container as a class
+    attribute that some function mutates, and nothing is memoised except get_page (whose cache is per context
+    table and invalidated by the table writers, C10)"""
+    shared = {}
+    for m in loader.package_modules():
+        mod = loader.module(m)
+        for node in ast.walk(mod.tree):
+            if not isinstance(node, ast.ClassDef):
+                continue
+            for st in node.body:
+                tgt = None
+                if isinstance(st, ast.Assign) and len(st.targets) == 1 and isinstance(st.targets[0], ast.Name):
+                    tgt, val = st.targets[0].id, st.value
+                elif isinstance(st, ast.AnnAssign) and isinstance(st.target, ast.Name) and st.value is not None:
+                    tgt, val = st.target.id, st.value
+                if tgt is None or tgt == "__slots__":
+                    continue
+                if isinstance(val, (ast.Dict, ast.List, ast.Set, ast.DictComp, ast.ListComp, ast.SetComp)) or (
+                        isinstance(val, ast.Call) and loader.norm(val.func).split(".")[-1] in
+                        ("dict", "list", "set", "defaultdict", "deque", "OrderedDict", "Counter")):
+                    shared[tgt] = f"{m}:{node.name}.{tgt}"
+    bad = []
+    for m in loader.package_modules():
+        mod = loader.module(m)
+        for qual, fn in loader.all_functions(mod):
+            for n in effects._own_nodes(fn):
+                if isinstance(n, ast.Attribute) and n.attr in shared:
+                    par = getattr(n, "_parent", None)
+                    gp = getattr(par, "_parent", None)
+                    w = isinstance(n.ctx, (ast.Store, ast.Del)) or \
+                        (isinstance(par, ast.Attribute) and par.value is n and isinstance(gp, ast.Call) and gp.func is par
+                         and par.attr in effects.MUTATORS) or \
+                        (isinstance(par, ast.Subscript) and par.value is n and isinstance(par.ctx, (ast.Store, ast.Del))) or \
+                        (isinstance(par, ast.AugAssign) and par.target is n)
+                    if w and not isinstance(n.ctx, ast.Store):
+                        bad.append(f"{m}:{qual} mutates the class attribute {shared[n.attr]}: "
+                                   f"{loader.norm(gp if isinstance(gp, ast.Call) else par)[:60]}")
+    rep.add_obligation("package#frame#no-mutable-class-attribute-is-mutated", "frame",
+                       "proved" if not bad else "refuted", "syntactic",
+                       detail="; ".join(bad)[:400] or f"{len(shared)} mutable class attributes, none mutated")
+    memo = []
+    for m in loader.package_modules():
+        md = loader.module(m)
+        for qual, fn in loader.all_functions(md):
+            for d in getattr(fn, "decorator_list", []):
+                src = loader.norm(d)
+                if "cache" in src and ("lru_cache" in src or src.endswith("cache") or "functools.cache" in src):
+                    memo.append(f"{m}:{qual}")
+    extra = sorted(k for k in memo if k != "core:Wtp.get_page")
+    rep.add_obligation("package#frame#no-results-are-memoised-across-pages-except-get_page", "frame",
+                       "proved" if not extra else "refuted", "syntactic",
+                       detail=("memoised: " + ", ".join(extra))[:300] if extra else "only core:Wtp.get_page is memoised")
+
+
 def _shadowed(fn, name):
     for n in effects._own_nodes(fn):
         if isinstance(n, ast.Name) and n.id == name and isinstance(n.ctx, ast.Store):
@@ -159,6 +214,7 @@ def main(tier):
     rep.add_static(check.run_contracts(cs, reg, 20000 if tier == "quick" else 120000))
     scan_module_state(rep)
     scan_cached_pages(rep)
+    scan_class_state(rep)
     scan_field_lifecycle(rep)
     try:
         rep.bounded = check.run_repo_py("bounded/c09_run.py", {"tier": tier, "seed": rep.seed}, timeout=6000)
